@@ -16,7 +16,7 @@ tests=$(/venv/bin/python -m pytest -q -p no:cacheprovider 2>&1 | tail -1)
 PBR_VERSION=0.0.0 /venv/bin/python "$D"/demo.py >/dev/null 2>&1; mut=$?
 echo "seeded=$(basename $(dirname $D))/$(basename $D) tests='$tests' demo_clean_exit=$clean demo_mutant_exit=$mut"
 ids="$@"
-if [ -z "$ids" ]; then ids=$(/venv/bin/python -c "import json,sys;print(json.load(open('$D/meta.json'))['property'])"); fi
+if [ -z "$ids" ]; then ids=$(/venv/bin/python -c "import json,sys;m=json.load(open('$D/meta.json'));print(m.get('property') or m.get('breaks_property'))"); fi
 cd "$V"
 for id in $ids; do
   out=$(CGSMILES_TREE="$W/t$$" VERIF_OUT="$W/out" ./check $id --tier ${TIER:-quick} 2>&1); rc=$?
